@@ -7,8 +7,11 @@ import (
 	"errors"
 	"fmt"
 	"os"
+	"strconv"
 	"strings"
 	"sync"
+	"syscall"
+	"time"
 
 	"github.com/attestantio/dirk/core"
 	"github.com/attestantio/dirk/rules"
@@ -118,7 +121,7 @@ func installFaults(f *faultSpec, failRoots map[string]bool) func() {
 		}
 		return nil
 	})
-	return func() { verifhook.SetHandler(nil) }
+	return func() { verifhook.SetHandler(baseHandler) }
 }
 
 func creds(client, ip string) *checker.Credentials {
@@ -136,6 +139,41 @@ func ipOf(s string) string {
 func (w *world) exec(f []string) string {
 	ctx := context.Background()
 	switch f[0] {
+	case "att", "atts", "atts0", "prop", "sign", "msign":
+		if w.lockWrap != nil && len(w.cops) == 0 {
+			traceMu.Lock()
+			w.trace = nil
+			traceMu.Unlock()
+		}
+	}
+	switch f[0] {
+	case "ltrace":
+		traceMu.Lock()
+		defer traceMu.Unlock()
+		if len(w.trace) == 0 {
+			return "-"
+		}
+		return strings.Join(w.trace, " ")
+	case "conc":
+		w.cops = nil
+		w.parks = parseParks(f[1])
+		return "ok"
+	case "cop":
+		d, _ := strconv.Atoi(f[1])
+		w.cops = append(w.cops, cop{delayMs: d, fields: f[2:]})
+		return "ok"
+	case "go":
+		workers, _ := strconv.Atoi(f[1])
+		cops := w.cops
+		w.cops = nil
+		out := w.runConcurrent(cops, w.parks, workers, 30*time.Second)
+		if strings.HasPrefix(out, "TIMEOUT") {
+			// the instance may be wedged: report and stop this process
+			fmt.Println(out)
+			os.Stdout.Sync()
+			os.Exit(3)
+		}
+		return out
 	case "att":
 		c, ip, a, d, fs := unhexStr(f[1]), ipOf(f[2]), parseAddr(f[3]), parseAtt(strings.Split(f[4], ",")), parseFaults(f[5])
 		undo := installFaults(fs, nil)
@@ -204,6 +242,8 @@ func (w *world) exec(f []string) string {
 	case "restart":
 		w.restart()
 		return "ok"
+	case "syncwrites":
+		return fmt.Sprintf("%v", w.rules.VerifSyncWrites())
 	case "export":
 		return w.export()
 	case "check":
@@ -238,12 +278,39 @@ func runEngine(workdir string) {
 	defer out.Flush()
 	n := 0
 	var w *world
+	killAt := -1
+	if v := os.Getenv("DH_KILL_AT"); v != "" {
+		killAt, _ = strconv.Atoi(v)
+	}
+	points := 0
+	var pointMu sync.Mutex
+	point := func(name string) {
+		pointMu.Lock()
+		defer pointMu.Unlock()
+		if os.Getenv("DH_MARK") != "" && (name == "store.exit" || name == "batchstore.exit") {
+			os.Stderr.WriteString("MARK " + name + "\n")
+		}
+		if points == killAt {
+			out.Flush()
+			os.Stdout.Sync()
+			syscall.Kill(os.Getpid(), syscall.SIGKILL)
+			select {}
+		}
+		points++
+	}
+	if os.Getenv("DH_POINTS") != "" {
+		baseHandler = func(name string, _ []byte) error { point(name); return nil }
+		verifhook.SetHandler(baseHandler)
+	}
 	fresh := func() {
 		if w != nil && w.rules != nil {
 			w.closeRules()
 		}
 		n++
 		dir := fmt.Sprintf("%s/w%d", workdir, n)
+		if d := os.Getenv("DH_DIR"); d != "" {
+			dir = d
+		}
 		if err := os.MkdirAll(dir, 0o755); err != nil {
 			panic(err)
 		}
@@ -260,16 +327,29 @@ func runEngine(workdir string) {
 		case f[0] == "reset":
 			prev := w.dir
 			fresh()
-			os.RemoveAll(prev)
+			if os.Getenv("DH_DIR") == "" {
+				os.RemoveAll(prev)
+			}
 			continue
 		case f[0] == "begin":
 			fmt.Fprintln(out, w.begin())
 		case w.config(f):
 			continue
 		default:
-			fmt.Fprintln(out, w.exec(f))
+			res := w.exec(f)
+			if os.Getenv("DH_POINTS") != "" {
+				point("reply.before")
+			}
+			fmt.Fprintln(out, res)
+			out.Flush()
+			if os.Getenv("DH_POINTS") != "" {
+				point("reply.after")
+			}
 		}
 		out.Flush()
+	}
+	if os.Getenv("DH_POINTS") != "" {
+		fmt.Fprintf(out, "POINTS %d\n", points)
 	}
 	if w != nil && w.rules != nil {
 		w.closeRules()
